@@ -185,4 +185,27 @@ SPECS = {
   "exhaustive_note": "all fault strings up to the stated length are enumerated on every run",
   "assumptions": ENGINE_V + ["unbounded 'keeps trying' is decided only as bounded progress for fault strings up to the stated length"],
  },
+
+ "C13": {
+  "level": "exploration",
+  "passes": [fsm("^TestC13$")],
+  "rule": "one case = one world with 1-4 configured peers drawn from {10.0.1.1, 10.0.1.2, 2001:db8::1, 2001:db8::2}, each with or without a local address (two candidates per family), passive or active, and brought into one of 8 states "
+          "{idle, inbound in OpenSent, inbound in OpenConfirm, Established inbound, Established outbound, outbound in OpenSent, held down after a protocol error, deleted}; then every (source, destination) pair of a 7 x 4 address lattice "
+          "(configured, unconfigured and the server's own addresses, both families) is connected in turn. Oracle = reference admission predicate (Appendix A.7): served connections get an OPEN; refused ones get zero bytes, are closed, trigger no callback; "
+          "Established sessions still deliver an UPDATE afterwards. The first 24 cases enumerate every state x local-address kind. distinct = distinct (peer set, trace).",
+  "assumptions": ENGINE_V + ["address strings are those net.TCPAddr produces for synthetic addresses; dual-stack listener formats are observed by the real-TCP engine only"],
+ },
+
+ "C10": {
+  "level": "fault_enumeration",
+  "passes": [fsm("^TestC10$", name="stops"), fsm("^TestC10Race$", name="race", race=True, gomaxprocs=4)],
+  "rule": "pass stops: 14 connection scripts (inbound passive/active, outbound, outbound with slow dial, ordered and simultaneous collision, refused dials, stalled dial incl. connect-retry redial, damped peer incl. end of hold-down, active WriteUpdate callers inbound/outbound, "
+          "Active state after an OpenSent TCP failure, remote-closed session, hold-time-0 session). family quiesced: Close and DeletePeer after every step of every script (settled), several seeds of schedule-point delays, with exact expectations incl. Cease on every open connection whose approved state was OpenSent/OpenConfirm/Established; "
+          "family sweep: a dry run records every virtual instant at which anything happened (20 ns fixed delay between dial completion and result hand-off, seeded delays elsewhere); the script is replayed with the stop issued concurrently at each instant t, t+1 ns, t+2..41 ns and a seeded offset < 2 us. "
+          "Oracles: stop returns within 1 ms of virtual time (no dependence on protocol timers), Serve returns ErrServerClosed, every connection of the peer closed on corebgp's side at return (accountant), OnClose delivered for an Established session, no callback afterwards (sealed plugin automaton), "
+          "no goroutine with corebgp frames left (goroutine dump after quiescence), after DeletePeer the server still serves a re-added peer. pass race: see race_reports; quiet monitors, steps paced by virtual sleeps, outbound FSM driven through >= 3 sessions with live writers, concurrent registry calls. "
+          "distinct = distinct (script, stop kind, step/instant, trace).",
+  "exhaustive_note": "every (script, step, stop kind) quiesced stop point is enumerated on every run; the instant sweep covers every event instant of the dry runs",
+  "assumptions": ENGINE_V + ["the race detector only reports races on executed paths with both accesses in its shadow history; a clean pass is not race freedom"],
+ },
 }
